@@ -23,8 +23,8 @@ JoinKeys(keys, i) ==
     ELSE IF i = Len(keys) THEN keys[i]
     ELSE keys[i] \o << AUDIT_KEY_SEPARATOR >> \o JoinKeys(keys, i + 1)
 
-StrItem(lhs, s) == [t |-> "F", lhs |-> lhs, op |-> "=", vk |-> "str", num |-> LimbsZero, str |-> s, name |-> "", rhs |-> "", neg |-> FALSE]
-PermItem(letters) == [t |-> "F", lhs |-> "perm", op |-> "=", vk |-> "perm", num |-> LimbsZero, str |-> letters, name |-> "", rhs |-> "", neg |-> FALSE]
+StrItem(lhs, s) == [t |-> "F", lhs |-> lhs, op |-> "=", vk |-> "str", num |-> LimbsZero, str |-> s, name |-> "", rhs |-> "", neg |-> FALSE, big |-> FALSE]
+PermItem(letters) == [t |-> "F", lhs |-> "perm", op |-> "=", vk |-> "perm", num |-> LimbsZero, str |-> letters, name |-> "", rhs |-> "", neg |-> FALSE, big |-> FALSE]
 
 KeyItems(keys) == IF Len(keys) = 0 THEN << >> ELSE << StrItem("key", JoinKeys(keys, 1)) >>
 
@@ -92,6 +92,7 @@ Encode(r) ==
 Encodable(r) ==
     LET items == AllItems(r) IN
     /\ Len(items) <= AUDIT_MAX_FIELDS
+    /\ \A i \in 1..Len(items) : ~items[i].big       \* a number that does not fit the 32-bit value word
     /\ \A i \in 1..Len(items) : ItemField(items[i]) >= 0
     /\ (r.kind = "watch" \/ r.syscalls.all \/ \A n \in SyscallNums(r.syscalls) : n >= 0 /\ n < 32 * AUDIT_BITMASK_SIZE)
 
